@@ -227,12 +227,13 @@ Definition arrive_R (rs : list rq) (tag : N) (k : kind) (newest : option nat) : 
 Definition arrive_rv (s : st) (tag : N) (k : kind) : rstat :=
   match k, alookup (reqs s) tag with KVersion, None => RvVersion (length (R s)) | _, _ => RvOpen end.
 
-Definition version_ids (s : st) : list nat :=
-  flat_map (fun kv => if N.eqb (fst kv) c_NOTAG then []
-                      else group (length (R s)) (R s) (Some (snd kv))) (reqs s).
+Definition version_ids (s : st) (r : nat) : list nat :=
+  filter (fun i => negb (Nat.eqb i r))
+    (flat_map (fun kv => if N.eqb (fst kv) c_NOTAG then []
+                         else group (length (R s)) (R s) (Some (snd kv))) (reqs s)).
 
-Definition vmark (s : st) : st :=
-  mkSt (reqs s) (mark_flushed (R s) (version_ids s)) (F s) (outq s) (wire s) (recvr s) (closed s) (posted s).
+Definition vmark (s : st) (r : nat) : st :=
+  mkSt (reqs s) (mark_flushed (R s) (version_ids s r)) (F s) (outq s) (wire s) (recvr s) (closed s) (posted s).
 
 Definition tail_rv (rv : rstat) (r : nat) : rstat :=
   match rv with RvVersion r' => if r' =? r then RvOpen else RvVersion r' | x => x end.
@@ -311,8 +312,8 @@ Inductive Step (c : cfg) (s : st) : label -> st -> Prop :=
 | S_ReqFlush t qt : getq s t = Some qt -> q_flushop qt = true -> q_called qt = true ->
     Step c s (LReqFlush t) (addf (setq s t (with_flush qt true)) (new_frame t))
 | S_V1 r q q' : getq s r = Some q -> q_pc q = WProc -> q_kind q = KVersion ->
-    getq (vmark s) r = Some q' ->
-    Step c s (LV1 r) (addf (setq (vmark s) r (with_pc (with_buf q' v_rversion) WTail)) (new_frame r))
+    getq (vmark s r) r = Some q' ->
+    Step c s (LV1 r) (addf (setq (vmark s r) r (with_pc (with_buf q' v_rversion) WTail)) (new_frame r))
 | S_WTail r q : getq s r = Some q -> q_pc q = WTail ->
     Step c s (LWTail r)
       (mkSt (reqs s) (upd (R s) r (tail_q q)) (F s) (outq s) (wire s) (tail_rv (recvr s) r) (closed s) (posted s))
@@ -484,10 +485,10 @@ Proof.
         apply nth_error_lt in E5. lia.
 Qed.
 
-Lemma getq_vmark : forall s j,
-  getq (vmark s) j =
+Lemma getq_vmark : forall s r j,
+  getq (vmark s r) j =
   match getq s j with
-  | Some q => Some (if existsb (Nat.eqb j) (version_ids s) then with_flush q true else q)
+  | Some q => Some (if existsb (Nat.eqb j) (version_ids s r) then with_flush q true else q)
   | None => None end.
 Proof. intros. unfold getq, vmark. simpl. apply mark_flushed_nth. Qed.
 
@@ -604,12 +605,12 @@ Lemma getq_upd_inv : forall s i q j q',
   (i = j /\ q' = q /\ exists q0, getq s i = Some q0) \/ (i <> j /\ getq s j = Some q').
 Proof. intros. apply getq_setq_inv. exact H. Qed.
 
-Lemma getq_vmark_inv : forall s j q',
-  getq (vmark s) j = Some q' ->
+Lemma getq_vmark_inv : forall s r j q',
+  getq (vmark s r) j = Some q' ->
   exists q, getq s j = Some q /\ (q' = q \/ q' = with_flush q true).
 Proof.
-  intros. rewrite getq_vmark in H. destruct (getq s j); [|discriminate].
-  inversion H. exists r. split; auto. destruct (existsb _ _); auto.
+  intros s r j q' H. rewrite getq_vmark in H. destruct (getq s j) as [q0|]; [|discriminate].
+  inversion H. exists q0. split; auto. destruct (existsb _ _); auto.
 Qed.
 
 Lemma getq_spawn_next_inv : forall s o j q',
@@ -650,7 +651,7 @@ Ltac gq H :=
   | getq (setq _ _ _) _ = Some _ =>
       let E := fresh "E" in let q0 := fresh "q0" in let Hq := fresh "Hq" in
       apply getq_setq_inv in H; destruct H as [(E & ? & (q0 & Hq)) | (E & H)]; [subst | gq H]
-  | getq (vmark _) _ = Some _ =>
+  | getq (vmark _ _) _ = Some _ =>
       let q0 := fresh "q0" in let Hq := fresh "Hq" in
       apply getq_vmark_inv in H; destruct H as (q0 & Hq & [H | H]); subst
   | getq (spawn_next _ _) _ = Some _ =>
